@@ -1,3 +1,154 @@
 import TTModel.Proto
-/-! C07 driver — stub (not built yet): answers `bad-op` to everything. -/
-def main : IO Unit := TT.Proto.mainLoop fun _ => "bad-op"
+import TTModel.C06_Heights
+import TTModel.C07_Transforms
+/-!
+C07 driver. Numbers: `p/q` in mode `R`, 16-hex bit patterns in mode `F`.
+
+  vec <m> <transform> <what> | v…        transform ∈ cumsum cumsumexp softplus cumsumsoftplus log
+                                          what ∈ fwd inv ld (ld takes x; element-wise transforms return a vector)
+                                                 invold ldold (cumsumsoftplus: the unrepaired formulas)
+  lograte <m> <n> <tree> fwd | x…        2n-2 values
+  lograte <m> <n> <tree> ld | x…         scalar (repaired);  ldold | y… (unrepaired: -sum y)
+  tril <m> fwd <d> | v…                  d*d entries, row-major
+  tril <m> inv <d> | Y…                  d(d+1)/2 entries
+  ratiold F <n> <tree> | s… | y…         log|det J| reported by the ratio transform
+  tp F <x0> <op>…                        op = s<hex> (wrapped parameter set + notification) | c (call)
+                                          -> the values returned by the calls (ExpTransform: f = exp, ld x y = x)
+-/
+open TT TT.Proto TT.C06 TT.C07
+
+structure Codec (α : Type) where
+  parse : String → Option α
+  show_ : α → String
+def ratC : Codec Rat := ⟨parseRat, showRat⟩
+def floatC : Codec Float := ⟨parseFloatBits, floatBits⟩
+
+def vecOf {α} [Zero α] (l : List α) : Nat → α := fun i => l.getD i 0
+def outV {α} (c : Codec α) (f : Nat → α) (len : Nat) : String :=
+  " ".intercalate ((List.range len).map fun i => c.show_ (f i))
+
+partial def parseTreeAux : List Char → Option (BTree × List Char)
+  | '(' :: rest => do
+      let (l, r1) ← parseTreeAux rest
+      match r1 with
+      | ',' :: r2 => do
+          let (r, r3) ← parseTreeAux r2
+          match r3 with
+          | ')' :: r4 => pure (.node l r, r4)
+          | _ => none
+      | _ => none
+  | cs =>
+      let ds := cs.takeWhile Char.isDigit
+      if ds.isEmpty then none else
+      pure (.leaf (String.ofList ds).toNat!, cs.dropWhile Char.isDigit)
+def parseTree (s : String) : Option BTree :=
+  match parseTreeAux s.toList with
+  | some (t, []) => some t
+  | _ => none
+def wellShaped (n : Nat) (t : BTree) : Bool :=
+  t.tips.length == n && (t.tips.mergeSort (· ≤ ·)) == List.range n
+
+/-- transforms that only add and subtract: run at `Rat` or `Float` -/
+def vecArith {α} [Add α] [Sub α] [Mul α] [Div α] [Neg α] [Zero α] [One α]
+    (c : Codec α) (tr what : String) (v : List α) : String :=
+  let n := v.length
+  let x := vecOf v
+  match tr, what with
+  | "cumsum", "fwd" => outV c (cumsumFwd x) n
+  | "cumsum", "inv" => outV c (cumsumInv x) n
+  | "cumsum", "ld" => c.show_ (cumsumLd n x x)
+  | _, _ => "bad-op"
+
+def vecFloat (tr what : String) (v : List Float) : String :=
+  let c := floatC
+  let n := v.length
+  let x := vecOf v
+  match tr, what with
+  | "cumsumexp", "fwd" => outV c (cumsumexpFwd x) n
+  | "cumsumexp", "inv" => outV c (cumsumexpInv x) n
+  | "cumsumexp", "ld" => c.show_ (cumsumexpLd n x x)
+  | "softplus", "fwd" => outV c (softplusFwd x) n
+  | "softplus", "inv" => outV c (softplusInv x) n
+  | "softplus", "ld" => outV c (softplusLd x x) n
+  | "cumsumsoftplus", "fwd" => outV c (cumsumsoftplusFwd x) n
+  | "cumsumsoftplus", "inv" => outV c (cumsumsoftplusInv x) n
+  | "cumsumsoftplus", "ld" => c.show_ (cumsumsoftplusLd n x x)
+  | "cumsumsoftplus", "invold" => outV c (cumsumsoftplusInvOld x) n
+  | "cumsumsoftplus", "ldold" => c.show_ (cumsumsoftplusLdOld n x x)
+  | "log", "fwd" => outV c (logFwd x) n
+  | "log", "inv" => outV c (logInv x) n
+  | "log", "ld" => outV c (logLd x (logFwd x)) n
+  | _, _ => vecArith c tr what v
+
+def tpRun (x0 : Float) (ops : List String) : Option (List String) := do
+  let mut tp : TP Float := TP.init Float.exp x0
+  let mut outs : List String := []
+  for op in ops do
+    if op == "c" then
+      let (r, tp') := TP.call Float.exp (fun x _ => x) tp
+      tp := tp'
+      outs := outs ++ [floatBits r]
+    else if op == "t" then
+      let tp' := TP.refresh Float.exp tp
+      tp := tp'
+      outs := outs ++ [floatBits tp'.cached]
+    else if op.startsWith "s" then
+      let v ← parseFloatBits (op.drop 1).toString
+      tp := TP.setX tp v
+    else none
+  pure outs
+
+def handle (line : String) : String :=
+  match splitWords line with
+  | "vec" :: m :: tr :: what :: "|" :: ws =>
+    if m == "R" then match ws.mapM parseRat with
+      | some v => vecArith ratC tr what v
+      | none => "bad-op"
+    else if m == "F" then match ws.mapM parseFloatBits with
+      | some v => vecFloat tr what v
+      | none => "bad-op"
+    else "bad-op"
+  | "lograte" :: "F" :: n :: tr :: what :: "|" :: ws =>
+    match n.toNat?, parseTree tr, ws.mapM parseFloatBits with
+    | some n, some t, some v =>
+      if !wellShaped n t || n < 2 || v.length != 2 * n - 2 then "bad-op" else
+      let m := 2 * n - 2
+      match what with
+      | "fwd" => outV floatC (lograteFwd m (preorder n t) (vecOf v)) m
+      | "ld" => floatBits (lograteLd m (vecOf v) (vecOf v))
+      | "ldold" => floatBits (lograteLdOld m (vecOf v) (vecOf v))
+      | _ => "bad-op"
+    | _, _, _ => "bad-op"
+  | "tril" :: "F" :: "fwd" :: d :: "|" :: ws =>
+    match d.toNat?, ws.mapM parseFloatBits with
+    | some d, some v =>
+      if v.length != d * (d + 1) / 2 then "bad-op" else
+      " ".intercalate ((List.range d).flatMap fun r => (List.range d).map fun c => floatBits (trilFwd (vecOf v) r c))
+    | _, _ => "bad-op"
+  | "tril" :: "F" :: "inv" :: d :: "|" :: ws =>
+    match d.toNat?, ws.mapM parseFloatBits with
+    | some d, some v =>
+      if v.length != d * d then "bad-op" else
+      outV floatC (trilInv (fun r c => (vecOf v) (r * d + c))) (d * (d + 1) / 2)
+    | _, _ => "bad-op"
+  | "ratiold" :: "F" :: n :: tr :: "|" :: rest =>
+    match n.toNat?, parseTree tr with
+    | some n, some t =>
+      if !wellShaped n t || n < 2 then "bad-op" else
+      let (s, y) := (rest.takeWhile (· ≠ "|"), (rest.dropWhile (· ≠ "|")).drop 1)
+      match s.mapM parseFloatBits, y.mapM parseFloatBits with
+      | some s, some y =>
+        if s.length != n || y.length != n - 1 then "bad-op" else
+        let b := vecOf ((List.range (2 * n - 1)).map (bounds n (vecOf s) (postorder n t)))
+        floatBits (ratioLd (ratioDetTerms n b (detIndices n t) (vecOf y)))
+      | _, _ => "bad-op"
+    | _, _ => "bad-op"
+  | "tp" :: "F" :: x0 :: ops =>
+    match parseFloatBits x0 with
+    | some x0 => match tpRun x0 ops with
+      | some outs => " ".intercalate outs
+      | none => "bad-op"
+    | none => "bad-op"
+  | _ => "bad-op"
+
+def main : IO Unit := mainLoop handle
